@@ -2,6 +2,8 @@ import CifModel.Lemmas.ParseCBSkip
 import CifModel.Lemmas.ParseCBErase
 import CifModel.Lemmas.ParseCBMirror
 import CifModel.Lemmas.ParseCBAllCont
+import CifModel.Lemmas.ParseCBPrune
+import CifModel.Lemmas.ParseCBFuel
 import CifModel.Spec.Traversal
 /-
   Property C15 — parse-time callbacks mirror the document and steer what is stored.
@@ -11,19 +13,24 @@ import CifModel.Spec.Traversal
   sequence `tokensOf`, the callbacks owed in document order `docEvents` and the denotation `denote`
   (Spec/Traversal.lean, part 2).
 
-  PROVED here, for ALL token sequences (well-formed or not), all handler programs, all fuels:
-    * C15_skip_depth_balanced_partial — parse_value / parse_list / parse_table never touch the counter and call no
-      handler; parse_item returns with the depth it was entered with (0 or 1 when entered at 0); the packet loop of
-      parse_loop_packets returns, at every packet boundary, with the depth of the boundary it was entered at (0 or 1
-      when entered at 0), whatever the handlers answer; the counter is never negative.
-    * C15_result_nonneg — cif_parse never returns a navigation code.
-    * C15_positive_aborts_local / C15_loop_start_local — at every handler call site, an answer that is neither
-      CONTINUE nor a SKIP directive (END, or a positive code) becomes the result of the production at once.
-    * C15_cex_loop_start_pinned — before fix 43d0bb7 a positive answer of handle_loop_start was dropped (finding F33,
-      fixed): kept as a statement about the pinned step `loopStartStepPinned`.
-  NOT PROVED (stated as `_full` propositions; checked by the `pcb` correspondence family and its independent oracle
-  only): the loop / container / CIF levels of the balance theorem, and the global theorems all_continue_mirror,
-  syntax_only_same_log, skip_semantics, end_ok, positive_aborts over rendered documents.
+  PROVED here.
+  For ALL token sequences (well-formed or not), all handler programs, all fuels:
+    * C15_skip_depth_balanced / _nonneg / _cif — every production returns (CIF_OK) with the depth it was entered with
+      (0 or 1 when entered at 0); never negative; a parse entered at 0 ends at 0.
+    * C15_stop_is_last, C15_end_ok, C15_positive_aborts — an END / error answer is the last callback of any kind; cif_parse
+      returns CIF_OK / that code.  C15_result_nonneg, C15_positive_aborts_local, C15_loop_start_local.
+    * C15_skip_opens_region, C15_skipped_region_silent — a SKIP answer opens a region at depth > 0; such a region makes no
+      handler / data-name / keyword callback and stores nothing.
+    * C15_syntax_only_same_log — same callbacks (handles erased) and result without a target CIF, for handle-blind
+      programs, unless the storing parse stops on a frame-nesting diagnostic.
+  For every well-formed abstract document `d` (over its token sequence `tokensOf d`, fuel `fuelFor`, proved sufficient):
+    * C15_all_continue_mirror(_parseCB) — callbacks = `docEvents d`, CIF_OK, store = `denote d`.
+    * C15_stored_is_structural — for skip-only programs the parse = the structural interpreter `kDoc` on the tree.
+    * C15_skip_semantics_rest — for skip-only programs the store = `denoteP (prunedDoc p true d)`: the document with the
+      bypassed sub-trees removed; C15_unfiltered_is_denote.
+  Pinned variants of repaired defects: C15_cex_loop_start_pinned (F33).
+  Not covered by theorems: layout (whitespace / comments) in the document-level theorems (`tokensOf` is layout-free; the
+  token-sequence theorems above do cover layout), duplicate names (DUP_* diagnostics), error recovery (another property).
 -/
 namespace CifModel
 open ParseCB Lemmas.ParseCB Spec.Doc
@@ -59,19 +66,6 @@ mutual
     | f :: fs, g :: gs => C15_contBeq f g && C15_contsBeq fs gs
     | _, _ => false
 end
-
-/-- **"everything else is stored as in an unfiltered parse"** — the remaining clause of the skip semantics, stated over the
-    document tree: for every well-formed document and every program that only continues or skips, the stored CIF is the
-    denotation of the document with the bypassed sub-trees removed (`prunedDoc`, Spec/Traversal.lean part 3: the sub-trees
-    below the elements whose start answered SKIP_CURRENT, plus the later siblings after SKIP_SIBLINGS, with the documented
-    conventions listed there).
-    NOT PROVED.  Reduced by `C15_stored_is_structural` below to a statement about the structural interpreter `kDoc` (no tokens,
-    no fuel): what remains is `(kDoc p true d (St.init [])).2 = denote (prunedDoc p true d)`, a structural induction over `d`
-    with a three-way case split at each handler call site.  Kernel-checked below for every single deviation and many double deviations on
-    two documents; checked on every run by the (now strict) pcb oracle. -/
-def C15_skip_semantics_rest_full : Prop :=
-  ∀ (d : Doc) (p : Prog), wfDoc d = true → NoStop p →
-    C15_contsBeq (parseCB p true (tokensOf d)).2.2 (denote (prunedDoc p true d)) = true
 
 -- ---- proved ------------------------------------------------------------------------------------------------------
 
@@ -324,9 +318,9 @@ theorem C15_all_continue_mirror (d : Doc) (hw : wfDoc d = true) (fuel : Nat) (hf
   exact ⟨by rw [h2]; exact k1, h1, by rw [h3]; exact k2⟩
 
 /-- the same for `parseCB` (the model's entry point, fuel `fuelFor`) -/
-theorem C15_all_continue_mirror_parseCB (d : Doc) (hw : wfDoc d = true) (hf : szDoc d + 1 ≤ fuelFor (tokensOf d)) :
+theorem C15_all_continue_mirror_parseCB (d : Doc) (hw : wfDoc d = true) :
     parseCB allContP true (tokensOf d) = (docEvents true d, OK, denote d) := by
-  obtain ⟨h1, h2, h3⟩ := C15_all_continue_mirror d hw (fuelFor (tokensOf d)) hf
+  obtain ⟨h1, h2, h3⟩ := C15_all_continue_mirror d hw (fuelFor (tokensOf d)) (fuelFor_enough d)
   unfold parseCB
   rw [h1, h2, h3]
 
@@ -334,13 +328,32 @@ theorem C15_all_continue_mirror_parseCB (d : Doc) (hw : wfDoc d = true) (hf : sz
     every program that only continues or skips, in both modes, the parse returns CIF_OK and what it logs and stores is what
     the structural interpreter `kDoc` — the same handler steps applied to the document tree, without tokens or fuel — logs
     and stores. -/
-theorem C15_stored_is_structural (p : Prog) (hp : NoStop p) (storing : Bool) (d : Doc) (hw : wfDoc d = true)
-    (hf : szDoc d + 1 ≤ fuelFor (tokensOf d)) :
+theorem C15_stored_is_structural (p : Prog) (hp : NoStop p) (storing : Bool) (d : Doc) (hw : wfDoc d = true) :
     parseCB p storing (tokensOf d)
       = ((kDoc p storing d (St.init [])).1.log.reverse, OK, (kDoc p storing d (St.init [])).2) := by
-  obtain ⟨h1, h2, h3⟩ := doc_stage1 p hp storing d (fuelFor (tokensOf d)) hw hf
+  obtain ⟨h1, h2, h3⟩ := doc_stage1 p hp storing d (fuelFor (tokensOf d)) hw (fuelFor_enough d)
   unfold parseCB
   rw [h1, h2, h3]
+
+/-- **"Everything else is stored as in an unfiltered parse"** — the last clause of the skip semantics, over the document
+    tree.  For every well-formed document `d` and every handler program that only continues or skips (`NoStop`), the CIF
+    stored by the parse of `tokensOf d` is the denotation of `prunedDoc p true d`: the document with the bypassed sub-trees
+    removed — the sub-trees below the elements whose start answered SKIP_CURRENT, plus the later siblings after
+    SKIP_SIBLINGS — defined declaratively in Spec/Traversal.lean part 3 (threading only the number of handler callbacks
+    delivered), with the documented conventions listed there (a skipped block/frame exists empty; a loop whose start
+    answered SKIP_* is not created; scalar item SKIP_* not stored; loop item SKIP_CURRENT stays; loop item SKIP_SIBLINGS
+    drops its packet; packet_end ≠ CONTINUE drops the packet; `denoteP` = `denote` + removal of packet-less loops at every
+    container end).  The parse returns CIF_OK. -/
+theorem C15_skip_semantics_rest (p : Prog) (hp : NoStop p) (d : Doc) (hw : wfDoc d = true) :
+    (parseCB p true (tokensOf d)).2.2 = denoteP (prunedDoc p true d) ∧ (parseCB p true (tokensOf d)).2.1 = OK := by
+  rw [C15_stored_is_structural p hp true d hw]
+  exact ⟨kDoc_d p hp d hw, rfl⟩
+
+/-- with all-continue handlers nothing is bypassed: the pruned document stores what the document denotes -/
+theorem C15_unfiltered_is_denote (d : Doc) (hw : wfDoc d = true) : denoteP (prunedDoc allContP true d) = denote d := by
+  have h1 := (C15_skip_semantics_rest allContP allContP_noStop d hw).1
+  rw [C15_all_continue_mirror_parseCB d hw] at h1
+  exact h1.symm
 
 -- ---- the repaired defect F33, as a statement about the pinned variant ------------------------------------------------
 
@@ -394,10 +407,8 @@ example : (parseCB (fun k _ => if k = 2 then 7 else 0) true (tokensOf C15_demo))
 -- the balance hypotheses are satisfiable: entry at depth 0 and at depth 2
 example : Bal 0 1 ∧ Bal 2 2 ∧ ¬ Bal 2 1 := by unfold Bal; omega
 -- the mirror hypotheses hold for the demo document
-example : wfDoc C15_demo = true ∧ szDoc C15_demo + 1 ≤ fuelFor (tokensOf C15_demo) := by decide +kernel
--- the remaining skip-semantics clause, kernel-checked on two documents for every single deviation (SKIP_CURRENT /
--- SKIP_SIBLINGS at each of the handler invocations) and for the pairs whose first deviation is at loop_start, packet_start,
--- a loop item or packet_end of the first loop
+example : wfDoc C15_demo = true := by decide +kernel
+-- the remaining skip-semantics clause: a loop-heavy document for instances
 def C15_loopDoc : Doc :=
   [{ code := (a!"t"), body := [.item (a!"_s") (.chr false (a!"a")),
       .loop [(a!"_a"), (a!"_b")] [[.unk, .na], [.chr false (a!"1"), .chr false (a!"2")], [.na, .unk]],
@@ -406,14 +417,13 @@ def C15_loopDoc : Doc :=
    { code := (a!"u"), body := [.item (a!"_z") .na] }]
 def C15_dev1 (k : Nat) (r : Int) : Prog := fun i _ => if i = k then r else 0
 def C15_dev2 (k1 : Nat) (r1 : Int) (k2 : Nat) (r2 : Int) : Prog := fun i _ => if i = k1 then r1 else if i = k2 then r2 else 0
-def C15_restOK (p : Prog) (d : Doc) : Bool := C15_contsBeq (parseCB p true (tokensOf d)).2.2 (denote (prunedDoc p true d))
-example : (List.range 20).all (fun k => [(-1 : Int), -2].all (fun r => C15_restOK (C15_dev1 k r) C15_demo)) = true := by
-  decide +kernel
-example : (List.range 34).all (fun k => [(-1 : Int), -2].all (fun r => C15_restOK (C15_dev1 k r) C15_loopDoc)) = true := by
-  decide +kernel
-example : [3, 4, 6, 7].all (fun k1 => (List.range 34).all (fun k2 => [(-1 : Int), -2].all (fun r1 =>
-    [(-1 : Int), -2].all (fun r2 => C15_restOK (C15_dev2 k1 r1 k2 r2) C15_loopDoc)))) = true := by
-  decide +kernel
+def C15_restOK (p : Prog) (d : Doc) : Bool := C15_contsBeq (parseCB p true (tokensOf d)).2.2 (denoteP (prunedDoc p true d))
+example : wfDoc C15_loopDoc = true := by decide +kernel
+example : NoStop (C15_dev1 4 (-2)) := fun i _ => by
+  unfold C15_dev1; split <;> simp [CONTINUE, SKIP_CURRENT, SKIP_SIBLINGS]
+-- kernel-evaluated instances (the theorem above covers all of them): packet_start of the first loop answers SKIP_SIBLINGS
+example : C15_restOK (C15_dev1 4 (-2)) C15_loopDoc = true := by decide +kernel
+example : C15_restOK (C15_dev2 6 (-2) 12 (-1)) C15_loopDoc = true := by decide +kernel
 -- the value-mirror hypotheses on a nested value
 example : wfV (.lst [.unk, .tbl [((a!"k"), (a!"k"), .lst [.na])]]) = true ∧ szV (.lst [.unk, .tbl [((a!"k"), (a!"k"), .lst [.na])]]) = 13 := by decide +kernel
 -- the sub-structure relation on the demo: a filtered parse (block_start answers SKIP_CURRENT; an item answers SKIP_CURRENT)
